@@ -135,6 +135,7 @@ func runProp(id, tier string, seed int64, only string, list bool, mutant string)
 			return 1
 		}
 		c := &Ctx{P: p, Prop: id, Tier: tier}
+		flattenFields, flattenPrefer = false, ""
 		d.Run(c)
 		c.finish()
 		if only != "" {
